@@ -15,7 +15,7 @@ from ..profile import Profile, agg_add, gen_record, gen_size, gen_periods, gen_f
 from . import c04 as c04mod
 from .c04 import nd, MUT_SIG, MUT_ACC, KOPS, _cls_name
 
-BUF_KINDS = ["f8", "f8", "f8", "f4", "i8", "list", "tuple", "view", "view_strided"]
+BUF_KINDS = ["f8", "f8", "f8", "f4", "i8", "list", "tuple", "view", "view_strided", "f8_2d", "list_of_arrays"]
 ROUTES = ["Signal()", "AccSignal()", "Cluster()", "reset_values", "time_match"]
 INPLACE = ["running_average", "remove_rolling_average:acc", "remove_rolling_average:velocity", "rebase_displacement",
            "set_zero_residual_velocity:none", "set_zero_residual_velocity:tz", "set_zero_residual_velocity:tz_open",
@@ -166,6 +166,9 @@ def _mk_table():
 
 
 TABLE = _mk_table()
+# functions that read the deprecated motion-statistics attributes (arias_intensity, t_b01, swtf ...), which are
+# not derived quantities in the sense of C04/C05 and are not part of (values, dt, settings): DESIGN 3.10
+HIDDEN_STATE = {"im.calc_sir", "im.calc_acc_rms", "stockwell.get_max_stockwell_freq"}
 
 
 class World(object):
@@ -183,10 +186,12 @@ class World(object):
                                                       "K4": {"armed": 0, "fired": 0, "recovered": 0}},
                       "own_cells": set(), "pure_cells": set(), "calls": {}, "call_outcomes": {}, "kindseq": set(),
                       "nontrivial": 0, "outcomes": {}, "runs": 0, "buffer_checks": 0, "object_checks": 0,
-                      "repeat_checks": 0, "run_class": {}}
+                      "repeat_checks": 0, "later_repeat_checks": 0, "run_class": {}}
         self.kinds = []
         self.hit = False
         self.tmpdir = None
+        self.call_memo = {}     # (call record, digests of everything it refers to) -> first outcome
+        self.call_log = []      # call records issued so far (for deliberate re-issue later in the history)
 
 
 def _copy_buf(b):
@@ -247,7 +252,8 @@ class C05(Profile):
     def _res(self, world, x, eph=None):
         if isinstance(x, dict):
             if "ref" in x:
-                return world.bufs[x["ref"]]
+                b = world.bufs[x["ref"]]
+                return b[x["row"]] if "row" in x else b
             if "vals" in x:
                 return world.objs[x["vals"]].values
             if "obj" in x:
@@ -330,7 +336,9 @@ class C05(Profile):
         if k == "write":
             b = world.bufs[op["b"]]
             how = op["how"]
-            if isinstance(b, np.ndarray):
+            if how == "row":
+                b[op["i"]] *= op["v"]       # the caller scales one of the arrays in its own list
+            elif isinstance(b, np.ndarray):
                 if how == "slice":
                     b[op["i"]:op["j"]] = op["v"]
                 elif how == "scale":
@@ -538,7 +546,55 @@ class C05(Profile):
                 return out1, dict(base, invariant="I5:repeatable", cls=None, victim=op["f"], victim_kind="result",
                                   what="%s returned a different result when called again with the same arguments: %s"
                                        % (op["f"], why), first=out1.brief(), second=out2.brief())
+        # I5 across the history: the same call on the same inputs (same buffers bit for bit, same object values,
+        # dt and settings) issued again later -- typically after reads that filled caches -- gives the same outcome
+        key = self._call_key(world, op)
+        if key is not None and not TABLE[op["f"]]["path"].startswith("io:") and op["f"] not in HIDDEN_STATE:
+            first = world.call_memo.get(key)
+            if first is None:
+                world.call_memo[key] = out1
+                world.call_log.append(op)
+            else:
+                st["later_repeat_checks"] += 1
+                # two failures count as the same outcome here: which exception a call dies of may depend on
+                # attributes that are not part of (values, dt, settings); a *value* must never differ
+                why = None if (not out1.ok and not first.ok) else outcomes_agree(out1, first, 1e-12)
+                if why:
+                    return out1, dict(base, invariant="I5:repeatable-later", cls=None, victim=op["f"], victim_kind="result",
+                                      what="%s returned a different result than earlier in the history although its "
+                                           "arguments (arrays, object values, dt, settings) are unchanged: %s" % (op["f"], why),
+                                      first=first.brief(), second=out1.brief())
         return out1, None
+
+    def _call_key(self, world, op):
+        parts = [op["f"]]
+
+        def walk(x):
+            if isinstance(x, dict):
+                if "ref" in x:
+                    parts.append("B:" + codec.digest(self._res(world, x)))
+                elif "vals" in x:
+                    parts.append("V:" + codec.digest(np.asarray(world.objs[x["vals"]].values)))
+                elif "obj" in x:
+                    o = world.objs[x["obj"]]
+                    parts.append("O:%s:%s:%r:%s:%s" % (_cls_name(o), codec.digest(np.asarray(o.values)), float(o.dt),
+                                                      codec.digest(np.asarray(o.smooth_fa_freqs)),
+                                                      codec.digest(np.asarray(getattr(o, "response_times", 0)))))
+                else:
+                    parts.append(codec.dumps(x))
+            elif isinstance(x, list):
+                for i in x:
+                    walk(i)
+            else:
+                parts.append(repr(x))
+        try:
+            walk(op.get("args", []))
+            for k in sorted(op.get("kwargs", {})):
+                parts.append(k)
+                walk(op["kwargs"][k])
+        except Exception:  # noqa
+            return None
+        return "|".join(parts)
 
     def _coverage(self, world, op, out, kind):
         st = world.stats
@@ -650,7 +706,7 @@ class C05(Profile):
             if o["op"] == "buf":
                 data = o["data"]
                 vals = data["v"] if isinstance(data, dict) and "nd" in data else (data["tu"] if isinstance(data, dict) else data)
-                if o["kind"] not in ("view", "view_strided"):
+                if o["kind"] not in ("view", "view_strided", "f8_2d", "list_of_arrays"):
                     for n in (32, 16, 8, 4, 2):
                         if len(vals) > n:
                             o2 = dict(o)
@@ -693,6 +749,7 @@ class C05(Profile):
             "buffer_comparisons": agg.get("buffer_checks", 0),
             "object_comparisons": agg.get("object_checks", 0),
             "repeat_call_comparisons": agg.get("repeat_checks", 0),
+            "later_repeat_call_comparisons": agg.get("later_repeat_checks", 0),
             "run_classes": agg.get("run_class", {}),
         }
 
@@ -748,6 +805,8 @@ class Gen(object):
         self.queue.append(lambda w: self.g_buf())
         self.queue.append(lambda w: self.g_new(w))
         if self.cfg["cluster"]:
+            if rng.random() < 0.6:
+                self.queue.append(lambda w: self.g_buf(kind=rng.choice(["f8_2d", "list_of_arrays"])))
             self.queue.append(lambda w: self.g_newk(w))
         if self.cfg["run_class"] == "purity":
             # round-robin over the catalogue so that every function is exercised regardless of luck
@@ -775,6 +834,16 @@ class Gen(object):
             op["data"] = [float(v) for v in vals]
         elif kind == "tuple":
             op["data"] = {"tu": [float(v) for v in vals]}
+        elif kind in ("f8_2d", "list_of_arrays"):
+            k = rng.choice([2, 2, 3])
+            n = max(n, 12) if n < 12 else min(n, 128)
+            base = gen_record(rng, n, kind=rng.choice(["sines", "decay", "noise"]))
+            rows = []
+            for i in range(k):
+                lag = rng.randint(0, 4)
+                sh = ([base[0]] * lag + base[:n - lag]) if lag else list(base)
+                rows.append([round(v + rng.gauss(0, 0.01), 6) for v in sh])
+            op["data"] = {"nd": "f8", "v": rows} if kind == "f8_2d" else [nd(r) for r in rows]
         elif kind == "view":
             off = rng.randint(1, 5)
             pad = gen_record(rng, off) + vals + gen_record(rng, rng.randint(1, 4))
@@ -785,10 +854,12 @@ class Gen(object):
             op.update(data=nd(full), off=off, n=n, step=2)
         return op
 
-    def _buf_names(self, world, writable=False, min_n=1):
+    def _buf_names(self, world, writable=False, min_n=1, two_d=False):
         out = []
         for b in sorted(world.bufs):
             if b.endswith("^"):
+                continue
+            if (world.kind.get(b) in ("f8_2d", "list_of_arrays")) != two_d:
                 continue
             if writable and world.kind.get(b) == "tuple":
                 continue
@@ -800,7 +871,8 @@ class Gen(object):
         rng = self.rng
         # prefer buffers that some object was built from
         used = sorted({o[2] for o in world.origin.values() if o[2] and o[2] in world.bufs and world.kind.get(o[2]) != "tuple"})
-        names = used if (used and rng.random() < 0.8) else self._buf_names(world, writable=True)
+        names = used if (used and rng.random() < 0.8) else \
+            (self._buf_names(world, writable=True) + self._buf_names(world, two_d=True))
         if not names:
             return None
         b = rng.choice(names)
@@ -808,6 +880,8 @@ class Gen(object):
         how = rng.choice(["slice", "slice", "scale", "shift"])
         if world.kind.get(b) == "list":
             how = "slice"
+        if world.kind.get(b) == "list_of_arrays":
+            return {"op": "write", "b": b, "how": "row", "i": rng.randrange(n), "v": rng.choice([2.0, -1.0, 0.5])}
         op = {"op": "write", "b": b, "how": how}
         if how == "slice":
             i = rng.randrange(n)
@@ -824,6 +898,10 @@ class Gen(object):
         rng = self.rng
         names = self._buf_names(world, min_n=min_n)
         r = rng.random()
+        two = self._buf_names(world, two_d=True)
+        if two and rng.random() < 0.15:
+            b = rng.choice(two)
+            return {"ref": b, "row": rng.randrange(len(world.bufs[b]))}
         if names and r < 0.75:
             return {"ref": rng.choice(names)}
         objs = sorted(world.objs)
@@ -851,6 +929,11 @@ class Gen(object):
         if "K0" in world.clusters:
             return None
         names = self._buf_names(world, min_n=12)
+        two = self._buf_names(world, two_d=True)
+        if two and rng.random() < 0.6:
+            b = rng.choice(two)
+            return {"op": "newk", "p": "K0", "values": {"ref": b}, "dt": self._dt(),
+                    "kw": {"stypes": rng.choice(["acc", "custom"]), "master_index": rng.choice([0, 0, 1])}}
         k = rng.choice([2, 2, 3])
         vals = []
         n = rng.randint(24, 96)
@@ -956,6 +1039,11 @@ class Gen(object):
         r = rng.random()
         pc = self.cfg["p_call"]
         if r < pc:
+            if world.call_log and rng.random() < 0.25:
+                old = rng.choice(world.call_log[-6:])
+                return {"op": "call", "f": old["f"], "args": old["args"], "kwargs": old["kwargs"], "again": True}
+            if rng.random() < 0.15:
+                return self.g_read(world)     # cache fills between calls
             return self.g_call(world)
         r = (r - pc) / (1 - pc)
         if r < 0.10:
